@@ -225,7 +225,7 @@ def prefix_agree(ctx, res):
     res.floor(7)
 
 
-@rule("C11.roles", ["C11", "C19"],
+@rule("C11.roles", ["C11", "C19", "C01"],
       "setattr_delegate: DelegatesTo stores into the delegate (validated "
       "there), PrototypedFrom validates with the prototype's trait and "
       "stores locally, then detaches the forwarding listener")
